@@ -87,7 +87,7 @@ PROPS = {
     "C12": {
         "witness": ("w_server", ['w_c12_flush']),
         "title": "The server never waits for input while it owes a flushed reply",
-        "kani": [],
+        "kani": [("k7_tls", ["k7_prepended_write", "k7_switchable_plain"])],
         "verus": [(U1, ["U1.next", "U1.flush"]), (U5, ["U5."])],
     },
     "C13": {
